@@ -298,7 +298,14 @@ import importlib as _importlib
 import os as _os
 _PLUG = []
 for _p in sorted(_glob.glob(_os.path.join(_os.path.dirname(_os.path.abspath(__file__)), 'gens_*.py'))):
-    _m = _importlib.import_module(_os.path.basename(_p)[:-3])
+    try:
+        _m = _importlib.import_module(_os.path.basename(_p)[:-3])
+    except Exception as _e:      # a broken plug-in must not take the other properties down
+        import sys as _sys
+        print('gens plug-in %s failed to import: %r' % (_p, _e), file=_sys.stderr)
+        PLUGIN_ERRORS = globals().setdefault('PLUGIN_ERRORS', [])
+        PLUGIN_ERRORS.append((_os.path.basename(_p), repr(_e)))
+        continue
     _PLUG.append(_m)
     for _k, _v in getattr(_m, 'GENS', {}).items():
         GENS.setdefault(_k, [])
